@@ -54,12 +54,37 @@ class StmtMixin:
     def prune(self):
         if not self.pruning:
             return
+        # 1. quantifier-free part only (fast, decides most branch conditions)  2. everything, short budget
+        qf = [t for t in list(self.facts) + list(self.pc) if not self._has_quant(t)]
         s = z3.Solver()
         s.set('timeout', self.prune_ms)
+        s.add(*qf)
+        if s.check() == z3.unsat:
+            raise PathEnd()
+        s = z3.Solver()
+        s.set('timeout', 200)
         s.add(*self.facts)
         s.add(*self.pc)
         if s.check() == z3.unsat:
             raise PathEnd()
+
+    def _has_quant(self, t):
+        i = t.get_id()
+        c = self._quant_cache.get(i)
+        if c is None:
+            stack, c = [t], False
+            seen = set()
+            while stack and not c:
+                x = stack.pop()
+                if x.get_id() in seen:
+                    continue
+                seen.add(x.get_id())
+                if z3.is_quantifier(x):
+                    c = True
+                elif z3.is_app(x):
+                    stack.extend(x.children())
+            self._quant_cache[i] = c
+        return c
 
     # ------------------------------------------------------------------ blocks
     def exec_block(self, stmts):
